@@ -132,11 +132,23 @@ func oracleC10(r *Run, w *cliWorld, o *stubOrigin, requireAll bool) {
 	lead := o.streams[0]
 	// leading track: the video track if any, else the first
 	li := 0
+	li = -1
 	for ti, t := range lead.tracks {
-		if t.video {
+		if t.video && t.supported {
 			li = ti
 			break
 		}
+	}
+	if li < 0 {
+		for ti, t := range lead.tracks {
+			if t.supported {
+				li = ti
+				break
+			}
+		}
+	}
+	if li < 0 {
+		return
 	}
 	L := lead.tracks[li]
 	if len(dl[lead]) == 0 {
@@ -299,6 +311,18 @@ func scC10(r *Run) {
 		if st.mode != "vod" {
 			st.endAfter = len(st.segs)
 		}
+	}
+	// a track of a codec the client does not support may sit before or after the supported ones: it is not
+	// exposed and changes nothing for the others
+	if T.Chance(1, 5) {
+		all := o.streams
+		o.streams = all[:1]
+		applyEvil(r, o, Pick(T, "unsupported-codec-first", "unsupported-codec-extra"))
+		o.streams = all
+		if o.multi {
+			o.multiRaw = o.multivariant()
+		}
+		r.Probe("unsupported-track-beside-supported")
 	}
 	w := newCliWorld(r, o, o.primaryURL(), plainFate(T, Pick(T, 0, 20, 200, 500)))
 	total := time.Duration(len(o.streams[0].segs)) * o.streams[0].segs[0].dur
